@@ -5,6 +5,7 @@ import (
 	"go/token"
 	"go/types"
 	"reflect"
+	"regexp"
 	"strings"
 
 	"golang.org/x/tools/go/ssa"
@@ -226,7 +227,7 @@ func runC04Top(c *Ctx, wl *walkLayers) {
 		case parentKey(d.value) != "" && strings.HasPrefix(d.value, parentKey(d.value)+".Index("):
 			nElem++
 			idx := strings.TrimSuffix(strings.TrimPrefix(d.value, parentKey(d.value)+".Index("), ")")
-			if !strings.HasSuffix(normIndexText(d.label), `"["+valid.ToStr(`+idx+`)+"]"`) {
+			if !strings.HasSuffix(normIndexText(d.label), `"["+valid.ToStr(`+idx+`)+"]"`) && !bracketInPrefix(d.we.E.Fn, normIndexText(d.label), idx) {
 				bad = append(bad, at+": top-level element is not labelled with the index used to fetch it: "+shorten(d.label, 100))
 			}
 			if !d.hasP || d.pkset&^kmask(reflect.Slice, reflect.Array) != 0 {
@@ -526,4 +527,61 @@ func runC04Strip(c *Ctx, rule string) {
 // normIndexText: an integer index rendered with strconv.Itoa is the same text as ToStr of it.
 func normIndexText(s string) string {
 	return strings.ReplaceAll(s, "strconv.Itoa(", "valid.ToStr(")
+}
+
+// bracketInPrefix: the label is P + ToStr(idx) + "]" where P is a loop-carried variable (a φ) every value
+// of which is some text + "[" (the opening bracket hoisted into the prefix that is built once).
+func bracketInPrefix(fn *ssa.Function, label, idx string) bool {
+	tail := `+valid.ToStr(` + idx + `)+"]"`
+	if fn == nil || !strings.HasSuffix(label, tail) {
+		return false
+	}
+	m := regexp.MustCompile(`^φ:[^:]*:(\d+):(t\d+):\w+$`).FindStringSubmatch(strings.TrimSuffix(label, tail))
+	if m == nil {
+		return false
+	}
+	var start *ssa.Phi
+	for _, b := range fn.Blocks {
+		if fmt.Sprint(b.Index) != m[1] {
+			continue
+		}
+		for _, ins := range b.Instrs {
+			if ph, ok := ins.(*ssa.Phi); ok && ph.Name() == m[2] {
+				start = ph
+			}
+		}
+	}
+	if start == nil {
+		return false
+	}
+	seen := map[ssa.Value]bool{}
+	ok := true
+	leaves := 0
+	var walk func(v ssa.Value)
+	walk = func(v ssa.Value) {
+		if seen[v] {
+			return
+		}
+		seen[v] = true
+		switch x := v.(type) {
+		case *ssa.Phi:
+			for _, e := range x.Edges {
+				walk(e)
+			}
+		case *ssa.Const:
+			if s, isS := constString(x); !isS || s != "" {
+				ok = false
+			}
+		case *ssa.BinOp:
+			s, isS := constString(x.Y)
+			if x.Op != token.ADD || !isS || !strings.HasSuffix(s, "[") {
+				ok = false
+			}
+			leaves++
+		default:
+			ok = false
+		}
+	}
+	walk(start)
+	return ok && leaves > 0
 }
